@@ -2,6 +2,7 @@ package scn
 
 import (
 	"fmt"
+	multierror "github.com/hashicorp/go-multierror"
 	"reflect"
 	"strings"
 	"sync"
@@ -95,17 +96,18 @@ type errInfo struct {
 
 // Env holds the recording state of one execution of one scenario.
 type Env struct {
-	mu      sync.Mutex
-	Next    int // last token handed out
-	NextErr int
-	Events  []interface{}
-	Phase   int
-	errs    map[error]errInfo
-	self    map[int]*am.Func // built functions by index (for error values that need a Func)
-	Execs   int
-	funcs   map[*am.Func]int // identity -> scenario index
-	NConvs  int
-	nextGen int
+	execCount map[int]int // executions per function (FailOn)
+	mu        sync.Mutex
+	Next      int // last token handed out
+	NextErr   int
+	Events    []interface{}
+	Phase     int
+	errs      map[error]errInfo
+	self      map[int]*am.Func // built functions by index (for error values that need a Func)
+	Execs     int
+	funcs     map[*am.Func]int // identity -> scenario index
+	NConvs    int
+	nextGen   int
 	// ViaList: build the next function through NewFuncList instead of NewFunc
 	ViaList bool
 	// PhaseOf, when set, tells which phase (goroutine of a concurrent run) executes the calling body
@@ -229,11 +231,27 @@ func (env *Env) failure(idx int, as string) (error, int) {
 		e = &am.ErrArgumentUnsatisfied{Func: env.self[idx]}
 	case "wrapunsat":
 		e = fmt.Errorf("inner resolution failed: %w", &am.ErrArgumentUnsatisfied{Func: env.self[idx]})
+	case "multi1":
+		// the usual ErrorOrNil() idiom: a *multierror.Error holding exactly one error
+		e = multierror.Append(nil, &FailErr{Fn: idx, ID: env.NextErr})
 	default:
 		e = &FailErr{Fn: idx, ID: env.NextErr}
 	}
 	env.errs[e] = errInfo{env.NextErr, idx}
 	return e, env.NextErr
+}
+
+// failsNow: does this execution of function idx fail?  A function with FailOn = k fails on its k-th execution only.
+// (called with env.mu held, once per execution)
+func (env *Env) failsNow(idx int, fs FuncSpec) bool {
+	if env.execCount == nil {
+		env.execCount = map[int]int{}
+	}
+	env.execCount[idx]++
+	if !fs.Fails {
+		return false
+	}
+	return fs.FailOn == 0 || env.execCount[idx] == fs.FailOn
 }
 
 func (env *Env) buildReflect(idx int, fs FuncSpec, opts []am.Arg) (*am.Func, error) {
@@ -310,7 +328,7 @@ func (env *Env) buildReflect(idx int, fs FuncSpec, opts []am.Arg) (*am.Func, err
 			}
 		}
 		if fs.HasErr {
-			if fs.Fails {
+			if env.failsNow(idx, fs) {
 				e, id := env.failure(idx, fs.FailAs)
 				ex.Fails, ex.ErrID = true, id
 				res = append(res, reflect.ValueOf(&e).Elem())
@@ -361,6 +379,7 @@ func (env *Env) buildBuilt(idx int, fs FuncSpec, opts []am.Arg) (*am.Func, error
 		env.mu.Lock()
 		defer env.mu.Unlock()
 		env.Execs++
+		failing := env.failsNow(idx, fs)
 		ex := EvExec{Ev: "exec", Fn: idx, Fin: cp(fs.In), Fout: cp(fs.Out), Args: []int{}, Outs: []int{}, Phase: env.phase()}
 		for _, v := range in.Values() {
 			ex.Args = append(ex.Args, IDOf(v.Value))
@@ -378,7 +397,7 @@ func (env *Env) buildBuilt(idx int, fs FuncSpec, opts []am.Arg) (*am.Func, error
 				panic(fmt.Sprintf("harness: built output %v not found in value set", l))
 			}
 			ex.Outs = append(ex.Outs, t)
-			if fs.Fails && idx%2 == 1 {
+			if failing && idx%2 == 1 {
 				// every other failing callback fails before it has filled in its outputs, as `if err != nil { return err }` does
 				continue
 			}
@@ -389,7 +408,7 @@ func (env *Env) buildBuilt(idx int, fs FuncSpec, opts []am.Arg) (*am.Func, error
 			}
 		}
 		var ret error
-		if fs.Fails {
+		if failing {
 			e, id := env.failure(idx, fs.FailAs)
 			ex.Fails, ex.ErrID = true, id
 			ret = e
